@@ -348,9 +348,12 @@ Proof.
       (* the flag and the cursor after the raw-text scan *)
       assert (Hraw : PR c d l (lpos z) has /\ lpos (lz l) <= lpos z /\ lbuf z = lbuf (lz l) /\ lstart z = lpos z /\ sn v = lpos z - lpos (lz l)).
       { destruct (rawtag l =? html_hash_Plaintext).
-        - destruct (safe_inv _ _ (plaintext_loop_spec _ Hw)) as (zp & Ez & Ha). rewrite Ez in Er. cbn [rbind] in Er.
+        - destruct (safe_inv _ _ (plaintext_loop_spec c (lz l) false Hc Hw)) as ([zp hp] & Ez & Ha). rewrite Ez in Er. cbn [rbind fst snd] in Er, Ha.
+          pose proof Ez as Ez2. unfold with_tmpl_lx in Ez2.
+          pose proof (with_tmpl_RI c d l Hc Htb (binv_of_inv d l Hi) (fun z : lx => z) (fun _ z' => z') (fun z : lx => z) plaintext_body _ (lz l) false (zp, hp)
+                        (fun _ _ => eq_refl) plaintext_step_samele (RI_false c d l _ (samele_refl _)) Ez2) as [_ Hreg]. cbn [fst snd] in Hreg.
           rewrite shiftv_spec in Er by eauto using adv_wf. cbn [rbind fst snd] in Er. injection Er as <- <- <-.
-          destruct Ha as (A1 & A2 & A3). cbn [skip lpos lbuf lstart sn]. split; [intros E; discriminate|]. repeat split; try lia; assumption.
+          destruct Ha as (A1 & A2 & A3). cbn [skip lpos lbuf lstart sn]. split; [exact Hreg|]. repeat split; try lia; assumption.
         - destruct (safe_inv _ _ (rawtext_loop_spec c (rawtag l) (lz l) false Hc Hw)) as (s & Es & Ha). rewrite Es in Er. cbn [rbind] in Er.
           rewrite shiftv_spec in Er by eauto using adv_wf. cbn [rbind fst snd] in Er. injection Er as <- <- <-.
           destruct Ha as (A1 & A2 & A3). cbn [skip lpos lbuf lstart sn]. split; [|repeat split; try lia; assumption].
@@ -373,19 +376,6 @@ Proof.
 Qed.
 
 End Next.
-
-(* ---- finding c09-template:plaintext: in plaintext content the lexer does not look for delimiters ----------------------- *)
-(* <plaintext>a{{x}}b with the Go delimiters: the Text token [11,18) contains the region [12,17) and reports HasTemplate() = false *)
-Lemma html_template_plaintext_refuted_proof :
-  let d := [60;112;108;97;105;110;116;101;120;116;62;97;123;123;120;125;125;98] in
-  is_region go_tmpl d 12 17 /\
-  exists tr, run go_tmpl 3 (new_lexer d) = Ok tr /\
-    map (fun r => (fst (fst r), snd (fst r), lhas (snd r))) tr =
-      [(StartTagT, Some (mkSl 0 10), false); (StartTagCloseT, Some (mkSl 10 1), false); (TextT, Some (mkSl 11 7), false)].
-Proof.
-  split; [split; [lia|split; [discriminate|split; vm_compute; reflexivity]]|].
-  eexists. split; vm_compute; reflexivity.
-Qed.
 
 (* ---- the "if" half for scanning loops: a region reached over plain steps is skipped whole and sets the flag ------------ *)
 Lemma with_tmpl_inv2 {S R} c (cur : S -> lx) (setc : S -> lx -> S) (I : S * bool -> Prop) (Q : R * bool -> Prop)
